@@ -67,6 +67,26 @@ def f(x, n, b, xs):
       a = a + plain(e, x + 1)
   return a
 '''),
+    ('cx:nested_def_run_in_disabled_region', '''@malt.experimental.do_not_convert
+def run_plain(cb, p, tag):
+  probe('D-run_plain')
+  return cb(p, tag)
+
+def f(x, n, b, xs):
+  def inner(p, tag):
+    probe(tag)
+    if p > x:
+      return p + 1
+    return p
+  k = lambda p, tag: (probe(tag), p)[1]
+  a = inner(n, 'E-inner-direct')
+  a = a + run_plain(inner, n, 'D-inner-in-disabled-region')
+  a = a + run_plain(k, 1, 'D-lambda-in-disabled-region')
+  probe('E-after')
+  for e in xs:
+    a = a + run_plain(inner, e, 'D-inner-in-loop')
+  return a
+'''),
     ('cx:lambda_and_nested_scope', '''def f(x, n, b, xs):
   k = lambda z: (probe('E-lambda'), z + 1)[1]
   def h(p):
